@@ -154,14 +154,17 @@ def build_system(sysd):
     procs = {n: fd.Process(name=n, id=i) for i, n in enumerate(sysd["procs"])}
     dims = fl_dimset(uni, list(uni.keys()))
     flows = {}
-    for f in sysd["flows"]:
+    for fi, f in enumerate(sysd["flows"]):
         ds = fl_dimset(uni, f["arr"]["dims"])
-        flows[f["name"]] = fd.Flow(dims=ds, values=_vals(f["arr"]["values"]).reshape(ds.shape), name=f["name"],
+        v = _vals(f["arr"]["values"]).reshape(ds.shape)
+        if fi % 2 and v.ndim >= 2:
+            v = np.asfortranarray(v)          # same values, column-major memory layout
+        flows[f["name"]] = fd.Flow(dims=ds, values=v, name=f["name"],
                                    from_process=procs[f["frm"]], to_process=procs[f["to"]])
     stocks = {}
     for s in sysd["stocks"]:
         ds = fl_dimset(uni, s["dims"])
-        mk = lambda v: fd.StockArray(dims=ds, values=_vals(v).reshape(ds.shape))
+        mk = lambda v: fd.StockArray(dims=ds, values=np.asfortranarray(_vals(v).reshape(ds.shape)))
         stocks[s["name"]] = fd.SimpleFlowDrivenStock(dims=ds, inflow=mk(s["inflow"]), outflow=mk(s["outflow"]), stock=mk(s["stock"]),
                                                     name=s["name"], process=procs[s["proc"]] if s["proc"] else None)
     return fd.MFASystem(dims=dims, parameters={}, processes=procs, flows=flows, stocks=stocks)
